@@ -23,10 +23,11 @@ from vmon.props.c11 import solo_result
 
 LEVEL = "exploration"
 SHARDS = {"quick": 16, "thorough": 16}
-MUST = ["spelling.styles", "trivia.comment", "trivia.pi", "trivia.whitespace", "trivia.paths_probed", "history.runs", "history.failed_prior_loads",
+MUST = ["spelling.styles", "trivia.comment", "trivia.pi", "trivia.whitespace", "trivia.paths_probed", "layout.one-line", "layout.crlf", "layout.blank-lines", "layout.tabs", "layout.no-indent", "history.runs", "history.failed_prior_loads",
         "history.style_changes", "baseline.fresh_process", "path.ContextCalibratorList", "path.EntryList", "path.ComparisonList"]
 RULE = ("case = (document IR, rendering = namespace convention x trivia placement, history of prior loads); fingerprint "
-        "(canonical written XML + decode of steered packets) must equal the baseline. Renderings: 6 namespace conventions; "
+        "(canonical written XML + decode of steered packets) must equal the baseline. Renderings: 15 namespace conventions; inter-element whitespace layouts "
+        "(none at all = whole document on one line, CRLF, blank lines, tabs, no indentation); "
         "for every distinct element-only parent path of the document, comments / processing instructions / whitespace "
         "before, between and after its children. Histories: 0-5 prior loads drawn from other documents in other "
         "conventions, malformed XML, wrong xtce_ns_prefix, semantically broken documents; baselines from fresh child "
@@ -40,6 +41,17 @@ STYLES = [("prefix", "xtce"), ("prefix", "custom"), ("prefix", "a"), ("prefix", 
           ("prefix", "U"), ("prefix", "L"), ("prefix", "Seq"), ("prefix", "P"), ("prefix", "Header"), ("prefix", "T"), ("prefix", "C"),
           ("prefix", "Parameter"), ("prefix", "x-1.2_y")]
 TRIVIA = {"comment": "<!-- c: <xtce:Fake/> -->", "pi": "<?vmon keep?>", "whitespace": "\n\n   \t  \n"}
+
+
+LAYOUTS = ("one-line", "crlf", "blank-lines", "tabs", "no-indent")
+
+
+def relayout(xml: bytes, layout):
+    """change only the pretty-printer's own inter-element whitespace (newline + indentation between tags)"""
+    import re
+    rep = {"crlf": lambda m: b">\r\n" + m.group(1) + b"<", "blank-lines": lambda m: b">\n\n\n" + m.group(1) + b"<",
+           "tabs": lambda m: b">\n" + b"\t" * (len(m.group(1)) // 2) + b"<", "no-indent": lambda m: b">\n<"}[layout]
+    return re.sub(rb">\n( *)<", rep, xml)
 
 
 def prefix_of(style):
@@ -152,6 +164,21 @@ def run(ctx):
             if fp != base:
                 ctx.violation(f"spelling/namespace/{style[0]}{'-' + style[1] if len(style) > 1 and style[1] != 'xtce' else ''}/{fp[0]}{'/' + fp[1] if fp[0] != 'ok' else ''}",
                               f"rendering with namespace convention {style} gives {fp[:2]} instead of the baseline definition", {"doc": i, "style": style, "result": fp})
+        # ---- (a) inter-element whitespace layouts: none at all (whole document on one line), CRLF, blank lines, tabs ------
+        for li, layout in enumerate(LAYOUTS):
+            style = STYLES[(i + li) % len(STYLES)] if li % 2 else (("prefix", "xtce"), ("default",), ("none",))[(i + li) % 3]
+            if layout == "one-line":
+                xml = render.render_doc(doc, ns_style=style, pretty=False)
+            else:
+                xml = relayout(render.render_doc(doc, ns_style=style), layout)
+            fp = load_fp(xml, style, doc, packets)
+            ctx.count("evaluations")
+            ctx.count(f"layout.{layout}")
+            ctx.sig("layout", layout, style[0])
+            if fp != base:
+                ctx.violation(f"spelling/layout/{layout}/{fp[0]}{'/' + fp[1] if fp[0] != 'ok' else ''}",
+                              f"the document laid out as '{layout}' (namespace convention {style}) gives {fp[:2]} instead of the baseline definition",
+                              {"doc": i, "style": style, "layout": layout, "result": fp})
         # ---- (a) trivia at every element-only parent path --------------------------------------------------------------
         root_el = render.doc_el(doc, render.Opts())
         paths = render.element_only_paths(root_el)
